@@ -985,14 +985,10 @@ func evalDiv(args []ast.Constant) (int64, error) {
 		if err != nil {
 			return 0, err
 		}
-		switch v {
-		case 0:
+		if v == 0 {
 			return 0, ErrDivisionByZero
-		case 1:
-			return 1, nil
-		default:
-			return 0, nil // integer division 1 / arg[0]
 		}
+		return 1 / v, nil // integer division 1 / arg[0]
 	}
 	res, err := args[0].NumberValue()
 	if err != nil {
@@ -1007,9 +1003,6 @@ func evalDiv(args []ast.Constant) (int64, error) {
 			return 0, ErrDivisionByZero
 		}
 		res = res / divisor
-		if res == 0 {
-			return 0, nil
-		}
 	}
 	return res, nil
 }
